@@ -230,6 +230,11 @@ func init() {
 			// long-lived, regularly used connections (5 requests 100 s apart: beyond the 300 s stream timeout, never idle that long)
 			vx.Job{Scenario: "e2e.route", Params: vx.P("numconn", "2", "apps", "1", "sizes", "5", "rounds", "5", "gap", "100"), Bound: b(1, 2), Weight: 5},
 			vx.Job{Scenario: "e2e.route", Params: vx.P("numconn", "0", "apps", "2", "sizes", "5", "rounds", "5", "gap", "100"), Bound: b(0, 1), Weight: 5},
+			// a burst of streams waiting for the server's accept loop (three proxy clients at once over one connection)
+			vx.Job{Scenario: "e2e.route", Params: vx.P("numconn", "1", "apps", "3", "sizes", "5"), Bound: b(1, 2), Weight: 5},
+			// a download: one request, the answer trickling back for 400 s with nothing sent the other way
+			vx.Job{Scenario: "e2e.route", Params: vx.P("numconn", "2", "apps", "1", "sizes", "8", "slowanswer", "5", "gap", "100"), Bound: b(1, 2), Weight: 5},
+			vx.Job{Scenario: "e2e.route", Params: vx.P("numconn", "0", "apps", "1", "sizes", "8", "slowanswer", "5", "gap", "100", "closeby", "proxy"), Bound: b(0, 1), Weight: 5},
 			// "a session with open streams keeps working": a stream opened or accepted at the very instant the
 			// inactivity timer fires is either refused or served, never killed underneath the application
 			vx.Job{Scenario: "mux.timeout", Params: vx.P("op", "open"), Bound: b(2, 3), Weight: 4},
